@@ -161,6 +161,9 @@ def main():
                 v.update(bad="value", want=repr(want[1])[:60], got=repr(pv)[:60], got_class=type(res).__name__)
             elif st["k"] != "zde" and not in_class(res, st["res"]["cls"]):
                 v.update(bad="class", want=st["res"]["cls"], got=repr(pv)[:60], got_class=type(res).__name__)
+            elif st.get("w") and type(res) in (int, float, bool):
+                # an operator the wrapper class overrides returned a plain built-in value
+                v.update(bad="unwrapped", want=st["res"]["cls"], got=repr(pv)[:60], got_class=type(res).__name__)
             else:
                 # the specification's value (third voter)
                 sv = parse(st["res"]["v"])
